@@ -1,5 +1,6 @@
 import EphVerif.Driver.Proto
 import EphVerif.Model.StorePipeline
+import EphVerif.Model.ReplicationGlue
 import EphVerif.Spec.Sha256
 import EphVerif.Spec.ChaCha20
 import EphVerif.Spec.Shamir
@@ -219,8 +220,10 @@ structure St where
   onB : List (Bytes × Bytes) := []
   /-- ids touched at the excluded point: look-ups are echoed -/
   skip : List Bytes := []
-  /-- an `ingest` happened (observation outside the property): look-ups are echoed from then on -/
-  observe : Bool := false
+  /-- a manifest arrived without replica (ingest / announce) since the last store: a look-up may also miss, see `held-chunk-poisoned` -/
+  forged : Bool := false
+  /-- ids for which the implementation reported a pending fetch on B (C24's bookkeeping, taken as a hint) -/
+  pendB : List Bytes := []
 
 /-- the association lists of the model stand for `unordered_map`s: compare states up to their order -/
 def sortByKey {β : Type} (l : List (Bytes × β)) : List (Bytes × β) :=
@@ -322,21 +325,117 @@ def step (st : St) (tok : List String) (_line : String) (impl : Option String) :
   | ["fetch", who, idTok] =>
     if !st.ready then (st, "no-cfg", "ok") else
     let id := idBytes idTok
-    if st.skip.contains id || st.observe then (st, impl.getD "not-judged", "ok") else
+    if st.skip.contains id then (st, impl.getD "zero-key", "ok") else
     let node := if who == "b" then st.b else st.a
     let out := fmtFetch (fetchChunk node id (zeros 32))
     let expect := (if who == "b" then st.onB else st.onA).lookup id
     let clause := if who == "b" then "roundtrip-replica" else "roundtrip-local"
     let verdict := judge impl fun i =>
       match expect with
-      | some p => if i == "hit " ++ canon p then "ok" else s!"viol:{clause}:expected hit {canon p}"
+      | some p =>
+        if i == "hit " ++ canon p then "ok"
+        else if st.forged then
+          -- manifests that came without the chunk must not change what a held chunk reads as: the payload or a miss
+          (if i == "miss" then "ok" else s!"viol:held-chunk-poisoned:expected hit {canon p} or miss")
+        else s!"viol:{clause}:expected hit {canon p}"
       | none => "ok"
     (st, out, verdict)
-  | ["ingest", _who, _spec] =>
-    if !st.ready then (st, "no-cfg", "ok") else ({ st with observe := true }, impl.getD "not-judged", "ok")
+  | ["ingest", who, spec] =>
+    if !st.ready then (st, "no-cfg", "ok") else
+    match st.last with
+    | none => (st, "no-manifest", "ok")
+    | some last =>
+      if last.excluded then (st, impl.getD "zero-key", "ok") else
+      match corrupt spec (last.manifest, []) with
+      | none => (st, "bad-args", "ok")
+      | some (m0, _) =>
+        let wall := st.nowNs + st.wallOff
+        let node := if who == "b" then st.b else st.a
+        let (n', ok) := ingestManifest st.cfg node wall (some (wire m0))
+        let st' := if who == "b" then { st with b := n', forged := true } else { st with a := n', forged := true }
+        (st', if ok then "ok" else "refused", "ok")
+  | ["announce", _from, spec, _assign] =>
+    if !st.ready then (st, "no-cfg", "ok") else
+    match st.last with
+    | none => (st, "no-manifest", "ok")
+    | some last =>
+      if last.excluded then (st, impl.getD "zero-key", "ok") else
+      match corrupt spec (last.manifest, []) with
+      | none => (st, "bad-args", "ok")
+      | some (m0, _) =>
+        let m := wire m0
+        let nowNs := st.nowNs + 1000000000        -- the harness lets one second pass (announce throttle)
+        let wall := nowNs + st.wallOff
+        let fs := fields (impl.getD "")
+        -- admission (sender, throttle, PoW, validation: C21) is taken from the implementation's answer
+        let acc := if impl.isSome then field fs "acc" == "1"
+          else decide (m.threshold > 0 ∧ m.shards.length ≥ m.threshold) && (manifestTtl m.expiresNs wall st.cfg.minTtl st.cfg.maxTtl).isSome
+        let b' := if acc then announceAdmitted st.cfg st.b wall m else st.b
+        let cached := find b'.manifests m.chunkId == some m
+        let pend := field fs "pend" == "1"
+        let out := s!"ok acc={b01 acc} cached={b01 cached} pend={b01 pend} req={if field fs "req" == "1" then "1" else "0"}"
+        let pendB := if pend then m.chunkId :: st.pendB.filter (· != m.chunkId) else st.pendB.filter (· != m.chunkId)
+        ({ st with b := b', nowNs := nowNs, forged := true, pendB := pendB }, out, "ok")
+  | ["serve"] =>
+    if !st.ready then (st, "no-cfg", "ok") else
+    match st.last with
+    | none => (st, "no-manifest", "ok")
+    | some last =>
+      if last.excluded then (st, impl.getD "zero-key", "ok") else
+      let wall := st.nowNs + st.wallOff
+      let out := match ReplicationGlue.chunkMessage st.cfg st.a wall last.manifest.chunkId with
+        | some msg => s!"chunk data={canon msg.data} ttl={msg.ttl}"
+        | none => "nack"
+      let verdict := judge impl fun i =>
+        if !last.valid || st.forged then "ok"
+        else if i.startsWith "chunk " then
+          (if field (fields i) "data" == canon last.held then "ok" else "viol:glue-serve:the CHUNK message does not carry the held bytes")
+        else "ok"
+      (st, out, verdict)
+  | ["deliver", _from, spec] =>
+    if !st.ready then (st, "no-cfg", "ok") else
+    match st.last with
+    | none => (st, "no-manifest", "ok")
+    | some last =>
+      if last.excluded then (st, impl.getD "zero-key", "ok") else
+      match corrupt spec (last.manifest, last.held) with
+      | none => (st, "bad-args", "ok")
+      | some (m0, ct) =>
+        let id := m0.chunkId
+        let wall := st.nowNs + st.wallOff
+        let fs := fields (impl.getD "")
+        let (b', ack) := ReplicationGlue.handleChunk st.cfg st.b wall true ⟨id, ct, 0⟩ (zeros 32)
+        let acc := ack == some true
+        let after := if acc then (match fetchChunk b' id (zeros 32) with
+          | .value (some p) => canon p | .value none => "miss" | _ => "throw") else "-"
+        let pendAfter := if acc then false else st.pendB.contains id
+        let out := s!"ack={match ack with | some true => "1" | some false => "0" | none => "none"} stored={b01 (find b'.chunks id).isSome}" ++
+          s!" ann={b01 (find b'.announced id).isSome} changed={if acc then "acc" else b01 (decide (normalize b' ≠ normalize st.b))}" ++
+          s!" pend={b01 pendAfter} fetch={after}"
+        let cachedB := find st.b.manifests id
+        let implAcc := field fs "ack" == "1"
+        let verdict := judge impl fun i =>
+          if !last.valid then "ok"
+          else if implAcc then
+            match cachedB.bind fun m => specPlaintext (wire m) ct with
+            | none => "viol:tamper-accepted:CHUNK accepted although its decryption does not hash to the cached manifest's content hash"
+            | some pt =>
+              if field fs "fetch" != canon pt || field fs "stored" != "1" then
+                "viol:roundtrip-replica:the importing node cannot serve the replica it accepted: " ++ i
+              else if field fs "pend" != "0" then "viol:pending-cleared:a pending fetch survives the arrival of its chunk"
+              else "ok"
+          else if field fs "changed" != "0" then "viol:tamper-state-changed"
+          else if field fs "ack" == "none" then "viol:roundtrip-replica:no ACK for a CHUNK on a keyed session"
+          else if harmless spec && cachedB == some (wire last.manifest) &&
+              (manifestTtl (wire last.manifest).expiresNs wall st.cfg.minTtl st.cfg.maxTtl).isSome then
+            "viol:roundtrip-replica:genuine CHUNK refused: " ++ i
+          else "ok"
+        let onB := match (if implAcc || impl.isNone then cachedB.bind fun m => specPlaintext (wire m) ct else none) with
+          | some pt => if acc then (id, pt) :: st.onB.filter (·.1 != id) else st.onB
+          | none => st.onB
+        ({ st with b := b', onB := onB, pendB := if acc then st.pendB.filter (· != id) else st.pendB }, out, verdict)
   | ["receive", spec] =>
     if !st.ready then (st, "no-cfg", "ok") else
-    if st.observe then (st, impl.getD "not-judged", "ok") else
     match st.last with
     | none => (st, "no-manifest", "ok")
     | some last =>
@@ -378,7 +477,7 @@ def step (st : St) (tok : List String) (_line : String) (impl : Option String) :
         let onB := match (if implAcc || impl.isNone then specPlaintext m ct else none) with
           | some pt => if acc then (m.chunkId, pt) :: st.onB.filter (·.1 != m.chunkId) else st.onB
           | none => st.onB
-        ({ st with b := b', onB := onB }, out, verdict)
+        ({ st with b := b', onB := onB, pendB := if acc then st.pendB.filter (· != m.chunkId) else st.pendB }, out, verdict)
   | ["cli", spec] =>
     if !st.ready then (st, "no-cfg", "ok") else
     match st.last with
